@@ -772,3 +772,113 @@ def redirect_target_guarded_rule(ctx, rule):
     if n < 2:
         raise AnalysisError('WebSession: expected the retargeting store and the request factory call on the redirect location (found %d)' % n)
     return n
+
+
+def delegating_wrapper_rule(ctx, rule, cls_qual='wpull.network.pool:HappyEyeballsConnection'):
+    """The pool hands out the wrapper; the stream's close()/reset() after an overrun or an error land in the wrapper's own methods,
+    everything else in __getattr__.  All of them must reach the same object: a method of the wrapper that forwards its own name
+    (`def close(self): self.<field>.close()`) forwards to the field __getattr__ delegates to - closing the abandoned connection of
+    the pair leaves the live one open, with the unread rest of the response in it, for the next user."""
+    import ast
+    from .. import util as U
+    from ..index import norm_text, walk_no_nested
+    repo, ck = ctx.repo, ctx.check
+    ci = repo.cls(cls_qual)
+    ga = ci.methods.get('__getattr__')
+    fld = None
+    if ga is not None:
+        for c in U.calls(ga.node):
+            if isinstance(c.func, ast.Name) and c.func.id == 'getattr' and c.args and U.is_self_attr(c.args[0]):
+                fld = c.args[0].attr
+    if fld is None:
+        raise AnalysisError('%s: __getattr__ delegating to a field not found' % cls_qual)
+    n = 0
+    for m in ci.methods.values():
+        for c in U.calls(m.node):
+            if isinstance(c.func, ast.Attribute) and c.func.attr == m.name and U.is_self_attr(c.func.value):
+                n += 1
+                same = c.func.value.attr == fld or any(
+                    isinstance(st, ast.Assign) and st.lineno <= c.lineno and any(U.is_self_attr(t, fld) for t in st.targets)
+                    and any(U.is_self_attr(t, c.func.value.attr) for t in st.targets) for st in walk_no_nested(m.node))
+                ck.expect(same, rule, m.qual, '%s() forwards to the connection __getattr__ delegates to' % m.name,
+                          '%s() acts on self.%s while every other operation goes to self.%s: with two connections in play (dual stack) it '
+                          'closes / resets the abandoned one and leaves the live connection as it was' % (m.name, c.func.value.attr, fld), m.loc(c))
+    if n < 3:
+        raise AnalysisError('%s: expected closed / close / reset to forward to the active connection (found %d)' % (cls_qual, n))
+    return n
+
+
+def option_wiring_lint(ctx, rule, names, only=None):
+    """The set-up tasks build the crawler's parts with `factory.new(NAME, field=args.field, ...)`.  A constructor field that has a
+    command-line option of the same name and a default falls back to that default, silently, when the keyword is lost: the option is
+    accepted and ignored.  For the parts named here, every such field is passed, and passed from the option of its own name."""
+    import ast
+    from .. import util as U
+    from ..index import norm_text, dotted
+    repo, ck = ctx.repo, ctx.check
+    opt = repo.module('wpull.application.options')
+    dests = set()
+    for c in ast.walk(opt.tree):
+        if isinstance(c, ast.Call) and U.attr_name(c) == 'add_argument':
+            d = None
+            for k in c.keywords:
+                if k.arg == 'dest' and isinstance(k.value, ast.Constant):
+                    d = k.value.value
+            if d is None:
+                longs = [a.value for a in c.args if isinstance(a, ast.Constant) and isinstance(a.value, str) and a.value.startswith('--')]
+                if longs:
+                    d = longs[0][2:].replace('-', '_')
+            if d:
+                dests.add(d)
+    if len(dests) < 100:
+        raise AnalysisError('option table: only %d destinations found' % len(dests))
+    b = repo.module('wpull.application.builder')
+    cm = {}
+    for n in ast.walk(b.tree):
+        if isinstance(n, ast.Dict):
+            for k, v in zip(n.keys, n.values):
+                if isinstance(k, ast.Constant) and isinstance(k.value, str):
+                    cm[k.value] = v
+    found = 0
+    for f in repo.funcs.values():
+        if not f.module.name.startswith('wpull.application.tasks'):
+            continue
+        for c in U.calls(f.node):
+            if not (U.attr_name(c) == 'new' and c.args and isinstance(c.args[0], ast.Constant) and c.args[0].value in names and c.args[0].value in cm):
+                continue
+            name = c.args[0].value
+            v = cm[name]
+            ci = repo.resolve_class_expr(b, v)
+            fields = None
+            if ci is not None:
+                init = repo.find_method(ci, '__init__')
+                if init is not None:
+                    a = init.node.args
+                    fields = [x.arg for x in a.args[1:]] + [x.arg for x in a.kwonlyargs]
+            else:
+                r = repo.resolve_name(b, dotted(v) or '')
+                if r and r[0] == 'const' and isinstance(r[2], ast.Call) and len(r[2].args) >= 2 and isinstance(r[2].args[1], (ast.List, ast.Tuple)):
+                    fields = [(e.value if isinstance(e, ast.Constant) else e.elts[0].value) for e in r[2].args[1].elts
+                              if isinstance(e, ast.Constant) or (isinstance(e, ast.Tuple) and e.elts)]
+            if fields is None:
+                raise AnalysisError('option wiring: constructor fields of %s not found' % name)
+            found += 1
+            kws = {k.arg: k.value for k in c.keywords if k.arg}
+            for i, a_ in enumerate(c.args[1:]):
+                if i < len(fields):
+                    kws.setdefault(fields[i], a_)
+            for fld in fields:
+                if fld not in dests or (only is not None and fld not in only):
+                    continue
+                val = kws.get(fld)
+                ok = val is not None and any(isinstance(x, ast.Attribute) and x.attr == fld and 'args' in norm_text(x.value) for x in ast.walk(val))
+                if val is not None and not ok:
+                    # computed from the option through a local (`use_dir = ... args.x ...`)
+                    ex = U.expand_locals(f.node, val) if hasattr(U, 'expand_locals') else val
+                    ok = any(isinstance(x, ast.Attribute) and x.attr == fld for x in ast.walk(ex))
+                ck.expect(ok, rule, f.qual, '%s(%s=args.%s)' % (name, fld, fld),
+                          ('the keyword is not passed: %s falls back to its default and the option --%s is accepted but ignored' % (fld, fld.replace('_', '-')))
+                          if val is None else ('%s is fed from `%s`, not from the option of its own name' % (fld, norm_text(val)[:50])), f.loc(c))
+    if found < len(set(names)):
+        raise AnalysisError('option wiring: construction sites of %s not all found (%d)' % (sorted(names), found))
+    return found
